@@ -38,6 +38,16 @@ func main() {
 		out, _ := json.Marshal(runReplay(b))
 		os.Stdout.Write(append(out, '\n'))
 		os.Exit(0)
+	case "stream":
+		in, _ := io.ReadAll(os.Stdin)
+		var c streamCase
+		if err := json.Unmarshal(in, &c); err != nil {
+			fmt.Println(`{"status":"inconclusive","detail":"bad case"}`)
+			return
+		}
+		out, _ := json.Marshal(runStream(c))
+		os.Stdout.Write(append(out, '\n'))
+		os.Exit(0)
 	case "faults":
 		in, _ := io.ReadAll(os.Stdin)
 		var f faultCase
